@@ -358,6 +358,34 @@ def analyse(rep, f, c, rule, fn, counter_expected=True, hybrid=False):
                     best = (depth, kind)
         return best[1] if best else None
     in_loops = {bi for bi in reach if innermost_arm(bi) == 'some'}
+    # an offending element found by a whole-part combinator is an early exit too: the false edge of all(..), the true edge of
+    # any(..), the Some edge of position(..) / find(..)
+    for w in K.wholes:
+        if w['fn'] not in ('all', 'any', 'position', 'find'):
+            continue
+        for S in reach:
+            tS = b.blocks[S]['t']
+            if 'switch' not in tS or w['bb'] not in b.dom[S]:
+                continue
+            if tS.get('variants'):
+                scr = strip(Resolver(b).place(tS['discr_of']))
+                if not (w['fn'] in ('position', 'find') and scr[0] == 'call' and len(scr) == 4 and scr[3] == w['bb']):
+                    continue
+                found_t = [tgt for lab, tgt in switch_edges(b, S) if variant_of_edge(b, S, lab) == 'Some']
+            elif tS.get('sty') == 'bool':
+                ce = Resolver(b).operand(tS['switch'])
+                neg = False
+                while ce[0] == 'un' and ce[1] == 'Not':
+                    ce, neg = ce[2], not neg
+                if not (w['fn'] in ('all', 'any') and ce[0] == 'call' and len(ce) == 4 and ce[3] == w['bb']):
+                    continue
+                want_truth = (w['fn'] == 'any') != neg
+                found_t = [tgt for lab, tgt in switch_edges(b, S) if bool_truth(b, S, lab) is want_truth]
+            else:
+                continue
+            for ft in found_t:
+                if b.pred[ft] == [S] or set(b.pred[ft]) == {S}:
+                    in_loops |= {bi for bi in reach if ft == bi or ft in b.dom[bi]}
     res_ = Resolver(b)
 
     def verdict_key(bi, st):
